@@ -187,7 +187,7 @@ def slice_params(sl, fields, gen_log, n, reps):
         return out, "atas"
     for i in range(n):
         qs = []
-        if reps is not None:
+        if reps is not None and i < len(reps):
             md = tag(sl.cells[0].metadata, i)
             rc = [c for c in reps[i] if c.metadata == md]
             for f in fields:
@@ -411,6 +411,10 @@ def correspondence(ctx):
                     if type(c.values.get(f)) is np.ndarray:
                         nm, vals = next(it, (None, []))
                         draws.append([i, f, rats(vals)])
+                        if len(vals) != c.values[f].size:
+                            ctx.fail("moment_match: the sampler is asked for a different number of samples than the "
+                                     "source array holds", {"t": w_cells(t.cells), "field_names": names,
+                                                            "distribution": dist}, {"drawn": len(vals), "source": int(c.values[f].size)})
         wire_t = w_cells(t.cells)
         shown = {"t": wire_t, "field_names": names, "distribution": dist, "np.random.seed": seed}
         ctx.count(f"moment/dist={dist}")
